@@ -56,14 +56,18 @@ namespace rkcommon {
         {
           TASK_T t;
 
-          LocalTask(TASK_T &&fcn) : Task(1), t(std::forward<TASK_T>(fcn)) {}
+          LocalTask(TASK_T &&fcn) : Task(1), t(std::forward<TASK_T>(fcn))
+          {
+            // the scheduler deletes the task once it is done with it (it still
+            // touches the task after ExecuteRange returns)
+            m_DeleteOnCompletion = true;
+          }
 
           ~LocalTask() override = default;
 
           void ExecuteRange(enki::TaskSetPartition, uint32_t) override
           {
             t();
-            delete this;
           }
         };
 
